@@ -1,5 +1,5 @@
 (* C16 - Reported sizes and counts always equal what is actually stored. *)
-From IggyV Require Import Base.Tactics Base.ListX Model.Part Model.PartSpec Proofs.PartBasics Proofs.PartHistory Proofs.PartCounts Proofs.CacheHistory Proofs.OffsetsHistory Proofs.ReadExact Proofs.ReadPart Proofs.ReadHistory Proofs.ExpiryBasics Proofs.ExpiryHistory.
+From IggyV Require Import Base.Tactics Base.ListX Model.Part Model.PartSpec Proofs.PartBasics Proofs.PartHistory Proofs.PartCounts Proofs.CacheHistory Proofs.OffsetsHistory Proofs.ReadExact Proofs.ReadPart Proofs.ReadHistory Proofs.ExpiryBasics Proofs.ExpiryHistory Proofs.DedupHistory Proofs.Refine.
 Open Scope N_scope.
 
 Definition C16_full : Prop := forall c t0 ops, model_check c t0 ops = 0.
@@ -47,6 +47,15 @@ Proof.
   split; [apply (k_msgs _ HK)|]. split; [apply (k_psize _ HK)|]. split; [apply (k_cnt _ (k_seg _ HK)) | apply (K_counts _ (k_seg _ HK))].
 Qed.
 
+(* PROVED - REFINEMENT (Proofs/Refine.v): the specification monitor accepts EVERY run of the model, i.e. for every operation
+   list after every operation the reported message count is the number of retained messages and the reported size is the bytes of the log files plus the buffered messages.  This is C16_full under the guards the real code itself enforces or the model needs: segment size > 0, poll counts >= 1
+   (System::poll_messages refuses count 0 before the partition is reached), offsets and log files below 2^32 (32-bit index
+   fields), send timestamps non-zero and never going backwards; by-timestamp polls are the one operation kind left out. *)
+Theorem C16_refinement : forall ops c t0, 0 < c_seg c -> times_ok 0 ops -> Forall poll_ok ops ->
+  Forall bounds_ok (prun_states (c, part_new c t0) ops) -> model_check c t0 ops = 0.
+Proof. exact model_refines_spec. Qed.
+
 Print Assumptions C16_append_counters_partial.
 Print Assumptions C16_counters_history_partial.
 Print Assumptions C16_counters_history_expiry_partial.
+Print Assumptions C16_refinement.
